@@ -575,6 +575,23 @@ func runDesc(line []byte, rec *recorder) {
 				}
 				rec.ev(e3)
 			}
+			// a descriptor declaring fewer bytes than its tag implies, as the last thing in the buffer: the typed parser finds nothing
+			// left to read - refused (never a panic), or the parse ends at the end of the loop
+			if len(m) > 2 {
+				short := m[2 : 2+r.intn(len(m)-2)]
+				lp := append(append(append([]byte(nil), a...), m[0], byte(len(short))), short...)
+				bb := append([]byte{0xf0 | byte(len(lp)>>8), byte(len(lp))}, lp...)
+				var off4 int
+				var gerr4 error
+				if pn := safeCall(func() { _, off4, gerr4 = astits.VerifParseDescriptors(bb) }); pn != nil {
+					gerr4 = fmt.Errorf("panic %v", pn)
+				}
+				e4 := M{"ev": "dover", "class": "descriptor-shorter-than-its-body-at-end-of-input", "mid": midKind, "gerr": errStr(gerr4), "goff": off4, "loopend": len(bb), "blen": len(bb)}
+				if gerr4 != nil && fmt.Sprint(gerr4)[:5] == "panic" {
+					e4["gerr"] = "panic"
+				}
+				rec.ev(e4)
+			}
 		}
 	default:
 		fatal("unknown desc part %q", sc.Part)
